@@ -387,6 +387,9 @@ public:
 			ar.swap(tmp);
 		}
 		catch(std::bad_alloc const &) {
+			// the new value can't be kept, but the value it was meant
+			// to replace must not be served any more
+			remove(key);
 			return;
 		}
 
